@@ -395,13 +395,23 @@ def joinSlash : List Bytes → Bytes
   | [a] => a
   | a :: rest => a ++ 47 :: joinSlash rest
 
+/-- insertion into a sorted list (before the first element that is not smaller) -/
+def insertBy {α} (le : α → α → Bool) (a : α) : List α → List α
+  | [] => [a]
+  | b :: bs => if le a b then a :: b :: bs else b :: insertBy le a bs
+
+/-- stable insertion sort (structural, so that concrete instances evaluate in the kernel) -/
+def sortBy {α} (le : α → α → Bool) : List α → List α
+  | [] => []
+  | a :: as => insertBy le a (sortBy le as)
+
 /-- the files of a directory archive, in walk order, named by their slash-separated relative path -/
 def walk (files : List (List Bytes × Bytes)) : List File :=
-  (files.mergeSort fun a b => pathLe a.1 b.1).map fun f => ⟨joinSlash f.1, f.2⟩
+  (sortBy (fun a b => pathLe a.1 b.1) files).map fun f => ⟨joinSlash f.1, f.2⟩
 
 /-- `os.ReadDir`: entries sorted by name. -/
 def readDir (st : Store) : List (Bytes × Bool) :=
-  (st.map fun e => (e.1, e.2.isDir)).mergeSort fun a b => !bytesLt b.1 a.1
+  sortBy (fun a b => !bytesLt b.1 a.1) (st.map fun e => (e.1, e.2.isDir))
 
 /-! ### readModList -/
 
@@ -554,43 +564,55 @@ def serveFile (x : Ext) (ml : List ModVer) (st : Store) (who : Bytes → Option 
         | none => zipResponse (zipMembers path vers files)
       else .notFound
 
+/-- the URL routing: `/mod/<enc>/@v/<file>` ↦ (enc, file), cut at the first `/@v/` -/
+def route (url : Bytes) : Option (Bytes × Bytes) :=
+  if !hasPrefix Gen.Proxy.urlPrefix url then none
+  else cutAt Gen.Proxy.vSep (url.drop Gen.Proxy.urlPrefix.length)
+
+/-- `i = strings.LastIndex(file, ".")`: (file[:i], file[i+1:]) -/
+def splitExt (file : Bytes) : Option (Bytes × Bytes) :=
+  (if Gen.Proxy.extSplitLast then lastIndexOf Gen.Proxy.extSep file else indexOf Gen.Proxy.extSep file).map
+    fun i => (file.take i, file.drop (i + 1))
+
+/-- `handler` after the routing -/
+def serveRouted (x : Ext) (ml : List ModVer) (st : Store) (who : Bytes → Option (Bytes × Bytes))
+    (enc file : Bytes) : Response :=
+  match unescapePath enc with
+  | none => .notFound
+  | some path =>
+    if file = Gen.Proxy.listName then listResponse ml path else
+    match splitExt file with
+    | none => .notFound
+    | some (encVers, ext) =>
+      match unescapeVersion encVers with
+      | none => .notFound
+      | some vers0 => serveFile x ml st who path vers0 ext
+
 /-- `Server.handler` on `r.URL.Path`. -/
 def handler (x : Ext) (ml : List ModVer) (st : Store) (who : Bytes → Option (Bytes × Bytes))
     (url : Bytes) : Response :=
-  if !hasPrefix Gen.Proxy.urlPrefix url then .notFound else
-  match cutAt Gen.Proxy.vSep (url.drop Gen.Proxy.urlPrefix.length) with
+  match route url with
   | none => .notFound
-  | some (enc, file) =>
-    match unescapePath enc with
-    | none => .notFound
-    | some path =>
-      if file = Gen.Proxy.listName then listResponse ml path else
-      match (if Gen.Proxy.extSplitLast then lastIndexOf Gen.Proxy.extSep file else indexOf Gen.Proxy.extSep file) with
-      | none => .notFound
-      | some i =>
-        match unescapeVersion (file.take i) with
-        | none => .notFound
-        | some vers0 => serveFile x ml st who path vers0 (file.drop (i + 1))
+  | some (enc, file) => serveRouted x ml st who enc file
 
 /-- The archive name a zip request reaches `zipCache.Do` with (`none` = it does not get there). -/
 def zipKeyOf (x : Ext) (ml : List ModVer) (st : Store) (url : Bytes) : Option (Bytes × (Bytes × Bytes)) :=
-  if !hasPrefix Gen.Proxy.urlPrefix url then none else
-  match cutAt Gen.Proxy.vSep (url.drop Gen.Proxy.urlPrefix.length) with
+  match route url with
   | none => none
   | some (enc, file) =>
     match unescapePath enc with
     | none => none
     | some path =>
       if file = Gen.Proxy.listName then none else
-      match (if Gen.Proxy.extSplitLast then lastIndexOf Gen.Proxy.extSep file else indexOf Gen.Proxy.extSep file) with
+      match splitExt file with
       | none => none
-      | some i =>
-        match unescapeVersion (file.take i) with
+      | some (encVers, ext) =>
+        match unescapeVersion encVers with
         | none => none
         | some vers0 =>
           let vers := resolve x st ml path vers0
           if Gen.Proxy.handlerChecksModList && !ml.contains ⟨path, vers⟩ then none else
-          if file.drop (i + 1) ≠ Gen.Proxy.zipExt || Gen.Proxy.fileExts.contains (file.drop (i + 1)) then none else
+          if ext ≠ Gen.Proxy.zipExt || Gen.Proxy.fileExts.contains ext then none else
           match archiveBase path vers with
           | none => none
           | some name => (loadArchive x st name).map fun _ => (name, (path, vers))
